@@ -435,6 +435,80 @@ func TestVerifGrandpaProtocol(t *testing.T) {
 	res.Extra["unsafe_model_behaviours"] = unsafeModel
 	res.Extra["unsafe_reproduced_on_real_voters"] = unsafeReal
 	res.Extra["diverged_behaviours"] = diverged
+	vgpRoundChangeProbe(t, res)
+}
+
+// vgpGateBS is the voter's real block state; HasHeader (the first thing the validation of a vote asks, after the vote was
+// found to be of the current round) is the scheduler gate at which another goroutine of the node opens the next round.
+type vgpGateBS struct {
+	BlockState
+	gate func()
+}
+
+func (g *vgpGateBS) HasHeader(h common.Hash) (bool, error) {
+	if g.gate != nil {
+		f := g.gate
+		g.gate = nil
+		f()
+	}
+	return g.BlockState.HasHeader(h)
+}
+
+// vgpRoundChangeProbe: "any message delay": in the specification a vote of round r that reaches a voter is either taken into
+// round r's tallies (the voter is still in r) or dropped (it has moved on); delivery and the voter's step to round r+1 are
+// atomic actions, so when they overlap in time one of the two orders happened -- and in both, round r+1 starts with no
+// vote of round r in its tallies.  Four voters, voter 1 in round 1; while it validates voter k's round-1 vote, its own
+// initiateRound runs.
+func vgpRoundChangeProbe(t *testing.T, res *vResult) {
+	for trial, stage := range []Subround{prevote, precommit, prevote, precommit} {
+		beh := &vgpBehaviour{Safe: true, NV: 4, Parent: []int{0, 1}}
+		w := vgpNewWorld(t, beh)
+		s := w.svc[1]
+		for b := 1; b <= 2; b++ {
+			blk := &types.Block{Header: *w.headers[b], Body: types.Body{}}
+			if err := w.bs[1].AddBlockWithArrivalTime(blk, w.clock); err != nil {
+				t.Fatalf("VERIF-INFRA probe AddBlock: %v", err)
+			}
+		}
+		round := s.state.round
+		done := make(chan error, 1)
+		gbs := &vgpGateBS{BlockState: s.blockState}
+		gbs.gate = func() {
+			fin := make(chan struct{})
+			go func() { done <- s.initiateRound(); close(fin) }()
+			select {
+			case <-fin:
+			case <-time.After(30 * time.Millisecond):
+			}
+		}
+		s.blockState = gbs
+		from := 2 + trial%3
+		m := w.sign(from, round, stage, 1+trial%2)
+		pm := vTry(func() { _, _ = s.validateVoteMessage(peer.ID("probe"), m) })
+		var ierr error
+		select {
+		case ierr = <-done:
+		case <-time.After(20 * time.Second):
+			t.Fatalf("VERIF-INFRA probe: initiateRound started during a vote validation did not return")
+		}
+		res.Case("RoundChange||Deliver", fmt.Sprintf("%d|%d", stage, from))
+		res.Cmp()
+		np, nc := 0, 0
+		s.prevotes.Range(func(_, _ any) bool { np++; return true })
+		s.precommits.Range(func(_, _ any) bool { nc++; return true })
+		switch {
+		case pm != "" || ierr != nil:
+			res.Fail(9000+trial, 0, "RoundChange||Deliver", "result", "no panic, no error", fmt.Sprintf("panic=%s initiateRound=%v", pm, ierr),
+				"C22/concurrent/vote-validation-during-round-change/error", nil)
+		case s.state.round != round+1:
+			t.Fatalf("VERIF-INFRA probe: voter is in round %d, expected %d", s.state.round, round+1)
+		case np != 0 || nc != 0 || len(s.pvEquivocations) != 0 || len(s.pcEquivocations) != 0:
+			res.Fail(9000+trial, 0, "RoundChange||Deliver", fmt.Sprintf("tallies of round %d right after it was opened", round+1), "empty",
+				fmt.Sprintf("%d prevotes, %d precommits, %d+%d equivocators (a round-%d vote of voter %d was being validated when the round changed)",
+					np, nc, len(s.pvEquivocations), len(s.pcEquivocations), round, from),
+				"C22/concurrent/vote-validation-during-round-change/counted-in-next-round", nil)
+		}
+	}
 }
 
 func scaleFullVote(stage Subround, v Vote, round, setID uint64) ([]byte, error) {
